@@ -571,6 +571,57 @@ func renewalAttempt(nCont int, cutAfter int) (key, msg string, stalled bool) {
 	return k, m, false
 }
 
+// runStaleDeadline: the pause between two segments of a multi-line record straddles the instant at which the connection's FIRST
+// read deadline (two intervals after the connect) would run out. The shipped wrapper renews a deadline as soon as less than one
+// interval remains, so the read entered after segment 1 pushes it two intervals ahead and a pause of about one second — far
+// shorter than the 5 s flush interval — can never end in a read timeout: the continuation lines stay attached. (A wrapper that
+// renews only expired deadlines lets the stale one fire inside the pause.) Segment 1 goes out 9.4 s after the connect, segment 2
+// one second later; an attempt in which the harness stalled (segment 2 more than 4 s behind segment 1) is repeated.
+func runStaleDeadline(nCont, cutAfter int) (string, string) {
+	for attempt := 0; attempt < 4; attempt++ {
+		r := getRig()
+		defs.InputFlushInterval = slowInterval
+		t0 := time.Now()
+		cl, key, msg := openClient(r)
+		if key != "" {
+			return key, msg
+		}
+		id := nextID("stale")
+		first, head, next := rec(id+"-first"), rec(id+"-multi"), rec(id+"-next")
+		cl.write(first + "\n")
+		lines := []string{head}
+		for i := 0; i < nCont; i++ {
+			lines = append(lines, fmt.Sprintf("  continuation line %d of %s", i+1, id))
+		}
+		want := strings.Join(lines, "\n")
+		seg1 := strings.Join(lines[:cutAfter], "\n") + "\n"
+		seg2 := strings.Join(lines[cutAfter:], "\n") + "\n" + next + "\n"
+		if d := 2*slowInterval - 600*time.Millisecond - time.Since(t0); d > 0 {
+			time.Sleep(d)
+		}
+		w1 := time.Now()
+		cl.write(seg1)
+		time.Sleep(time.Second)
+		cl.write(seg2)
+		gap := time.Since(w1)
+		units := cl.finish()
+		if gap > 4*time.Second {
+			continue // the harness stalled: a legitimate flush pause may have separated the segments
+		}
+		n := 0
+		for _, u := range units {
+			if u == want {
+				n++
+			}
+		}
+		if n != 1 {
+			return "flush:stale-deadline-inside-short-pause", fmt.Sprintf("a multi-line record (%d continuation lines) sent in two segments %v apart, the first %v after the connect (flush interval 5 s, first read deadline 10 s after the connect), came out intact %d times: a read timeout fell into a pause shorter than the flush interval\n  delivered %s", nCont, gap, w1.Sub(t0), n, showUnits(units))
+		}
+		return exact("listener-stale-deadline", "a record, then a split multi-line record around the first read deadline", units, []string{first, want, next}, "")
+	}
+	return "", ""
+}
+
 // afterIdleDefault says whether the after-idle cases are part of the check. They fail on the shipped code (see README:
 // the first successful read behind an idle period is followed by a flush "for deadline update" although the timeout
 // branch has just flushed - key flush:first-read-after-idle-period-splits-record), so they stay off until that key is
@@ -644,6 +695,13 @@ func enumerateC08(ctx *seq.Ctx) {
 			n, cut := n, cut
 			ctx.Case(fmt.Sprintf("renewal/cont%d/cut%d", n, cut), true, fmt.Sprint(n, cut), func() (string, string) { return runDeadlineRenewal(n, cut) })
 		}
+	}
+
+	// the pause between the two segments straddles the connection's first read deadline (ten seconds each)
+	ctx.Group("listener/stale-deadline-inside-short-pause")
+	for n := 1; n <= 2; n++ {
+		n := n
+		ctx.Case(fmt.Sprintf("stale-deadline/cont%d/cut1", n), true, fmt.Sprint(n), func() (string, string) { return runStaleDeadline(n, 1) })
 	}
 
 	// a split multi-line record directly behind an idle period that ended in a read timeout (ten seconds each: on the worker
